@@ -49,6 +49,27 @@ def _caller_data(t):
     return False
 
 
+INPLACE_FUNCTIONS = ("np.copyto", "np.fill_diagonal", "np.put", "np.place", "np.putmask", "np.put_along_axis", "np.random.shuffle")
+
+
+def data_mutations(sts, is_data):
+    """in-place effects on arrays selected by `is_data`: item / slice / augmented assignment, NumPy's in-place functions
+    (first argument), in-place methods, and `out=` targets"""
+    bad = []
+    for st in sts:
+        for e in st.events:
+            if e[0] == "mutate" and is_data(e[1]):
+                bad.append(fx.show(e[2])[:80])
+            if e[0] == "call" and (e[2] in INPLACE_FUNCTIONS or e[2].endswith(".shuffle")) and e[3] and is_data(e[3][0]):
+                bad.append(f"{e[2]} on " + fx.show(e[3][0]))
+            if e[0] == "call" and e[2].endswith((".sort", ".fill", ".resize", ".put", ".itemset", ".setfield", ".partition", ".clip")) and isinstance(e[6], tuple) \
+                    and e[6][0] == "attr" and is_data(e[6][1]) and (not e[2].endswith(".clip") or dict(e[4]).get("out") is not None):
+                bad.append(e[2])
+            if e[0] == "call" and dict(e[4]).get("out") is not None and is_data(dict(e[4]).get("out")):
+                bad.append(e[2] + "(out=caller data)")
+    return bad
+
+
 def fit_obligations():
     obs = []
     for cls in estimators_all():
@@ -120,18 +141,7 @@ def fit_obligations():
         ob("no constructor hyper-parameter is written by fit (no assignment, no set_params, no in-place mutation of a hyper-parameter object)",
            not (written & hp) and not setp and not mut_hp, {"written": sorted(written & hp), "mutated": sorted(set(mut_hp))})
         # in-place effects on the caller's data
-        bad_mut = []
-        for st in sts:
-            for e in st.events:
-                if e[0] == "mutate" and _caller_data(e[1]):
-                    bad_mut.append(fx.show(e[2])[:80])
-                if e[0] == "call" and e[2] in ("np.copyto",) and e[3] and _caller_data(e[3][0]):
-                    bad_mut.append("np.copyto into " + fx.show(e[3][0]))
-                if e[0] == "call" and e[2].endswith((".sort", ".fill", ".resize", ".put", ".itemset", ".setfield")) and isinstance(e[6], tuple) \
-                        and e[6][0] == "attr" and _caller_data(e[6][1]):
-                    bad_mut.append(e[2])
-                if e[0] == "call" and dict(e[4]).get("out") is not None and _caller_data(dict(e[4]).get("out")):
-                    bad_mut.append(e[2] + "(out=caller data)")
+        bad_mut = data_mutations(sts, _caller_data)
         ob("no in-place mutation targets the caller's X or y", not bad_mut, {"mutations": sorted(set(bad_mut))[:4]})
     return obs
 
